@@ -288,6 +288,12 @@ def _run(case, ctx):
                 back = asi.as_quantity(A)
                 if type(back) is not A or fx(float(back)) != fx(float(a)):
                     ctx.viol("asSI-as_quantity-roundtrip", {**info, "got": [type(back).__name__, fx(float(back))]})
+                # quantities derived from one whose SI view was already asked for have an SI view of their own
+                for opn, dq in (("scaled", a * 2.0), ("negated", -a), ("doubled", a + a), ("halved", a / 2.0), ("abs", abs(-a))):
+                    ctx.count("same_type_ops")
+                    dsi = dq.asSI()
+                    if fx(float(dsi)) != fx(float(dq)) or list(dsi.sisig()) != sa:
+                        ctx.viol(f"asSI-of-a-derived-quantity:{opn}", {**info, "got": [list(dsi.sisig()), fx(float(dsi))], "want": fx(float(dq))})
             except Exception as e:
                 ctx.viol(f"single:raises:{type(e).__name__}", {**info, "exc": repr(e)})
         # printed SI unit of the class parses back to the class signature (all 8 formats)
